@@ -44,11 +44,17 @@ func c16GenTree(r *vh.Rand, depth, maxDepth int) []c16Node {
 				c.Impl, c.Ty = "model", c16TyM
 			case prevLambda && t < 24:
 				c.Impl, c.Ty = "retriever", c16TyR
-			case t < 34:
+			case t < 30:
 				c.Ty = c16TyNone
-			case t < 80:
+			case t < 66:
 				c.Ty = r.Range(c16TyA, c16TyD)
-			case t < 90:
+			case t < 72:
+				c.Ty = c16TyE
+			case t < 79:
+				c.Ty = c16TyAny // declared option type `any`
+			case t < 84:
+				c.Ty = c16TyI // declared option type: a small interface
+			case t < 92:
 				c.Ty = c16TyM
 			default:
 				c.Ty = c16TyR
@@ -57,6 +63,22 @@ func c16GenTree(r *vh.Rand, depth, maxDepth int) []c16Node {
 		}
 	}
 	return nodes
+}
+
+// c16OptTyFor: the type of an Option aimed at a node whose option type is nodeTy.  An Option
+// cannot have an interface type: for an interface-typed lambda take a concrete type (for the
+// small interface mostly the type that implements it).
+func c16OptTyFor(r *vh.Rand, nodeTy int) int {
+	switch nodeTy {
+	case c16TyAny:
+		return c16ConcreteTys[r.Intn(len(c16ConcreteTys))]
+	case c16TyI:
+		if r.Chance(70) {
+			return c16TyE
+		}
+		return c16ConcreteTys[r.Intn(len(c16ConcreteTys))]
+	}
+	return nodeTy
 }
 
 func c16Targets(nodes []c16Node, pre []string, out *[]c16Target) {
@@ -178,15 +200,15 @@ func (s *c16GenState) option() c16Opt {
 	}
 	switch {
 	case w < 25: // undesignated values
-		o.Ty = r.Range(c16TyA, c16TyR)
+		o.Ty = c16ConcreteTys[r.Intn(len(c16ConcreteTys))]
 		if t := s.pickTarget(func(t *c16Target) bool { return t.kind == "comp" && t.ty != c16TyNone }); t != nil && r.Chance(70) {
-			o.Ty = t.ty
+			o.Ty = c16OptTyFor(r, t.ty)
 		}
 		o.Vals = s.vals()
 	case w < 62: // designated values
-		o.Ty = r.Range(c16TyA, c16TyR)
+		o.Ty = c16ConcreteTys[r.Intn(len(c16ConcreteTys))]
 		if t := s.pickTarget(func(t *c16Target) bool { return t.kind == "comp" && t.ty != c16TyNone }); t != nil && r.Chance(75) {
-			o.Ty = t.ty
+			o.Ty = c16OptTyFor(r, t.ty)
 		}
 		o.Vals = s.vals()
 		for i := 0; i < npaths; i++ {
@@ -266,9 +288,9 @@ func (s *c16GenState) construction() []c16BuildOp {
 	for i := 0; i < nb; i++ {
 		b := c16BuildOp{Op: "base", Vals: []int{}, Handlers: []int{}, Paths: [][]string{}}
 		if r.Chance(70) {
-			b.Ty = r.Range(c16TyA, c16TyR)
+			b.Ty = c16ConcreteTys[r.Intn(len(c16ConcreteTys))]
 			if t := s.pickTarget(func(t *c16Target) bool { return t.kind == "comp" && t.ty != c16TyNone }); t != nil && r.Chance(85) {
-				b.Ty = t.ty
+				b.Ty = c16OptTyFor(r, t.ty)
 			}
 			b.Vals = s.vals()
 		} else {
@@ -408,6 +430,122 @@ func c16Gen(r *vh.Rand) *c16Case {
 	return c
 }
 
+// c16GenIface: cases built around lambdas whose declared option type is an interface type.  The
+// tree always holds such a lambda (top level and / or inside a nested graph) next to nodes with
+// concrete option types; the Options are of several concrete types – the chat-model / retriever
+// option types, lambda option types, the type that implements the small interface – sent
+// undesignated, designated to the interface-typed lambda (an error: wrong type), to the graph
+// around it, or to other nodes.
+func c16GenIface(r *vh.Rand) *c16Case {
+	lam := func(k string, ty int) c16Node { return c16Node{K: "comp", Key: k, Ty: ty, Impl: "lambda"} }
+	ifaceTy := func() int {
+		if r.Chance(65) {
+			return c16TyAny
+		}
+		return c16TyI
+	}
+	concrete := func() int {
+		return []int{c16TyA, c16TyB, c16TyE, c16TyE, c16TyM, c16TyM, c16TyR, c16TyD}[r.Intn(8)]
+	}
+	level := func(keys []string, withIface bool) []c16Node {
+		n := r.Range(2, 3)
+		perm := r.Perm(len(keys))
+		var nodes []c16Node
+		at := r.Intn(n)
+		for i := 0; i < n; i++ {
+			k := keys[perm[i]]
+			switch {
+			case withIface && i == at:
+				nodes = append(nodes, lam(k, ifaceTy()))
+			case r.Chance(12):
+				nodes = append(nodes, lam(k, ifaceTy()))
+			case r.Chance(10):
+				nodes = append(nodes, lam(k, c16TyNone))
+			default:
+				nodes = append(nodes, lam(k, concrete()))
+			}
+		}
+		// a real chat model / retriever component after a lambda
+		if r.Chance(35) {
+			last := keys[perm[n]]
+			if r.Bool() {
+				nodes = append(nodes, c16Node{K: "comp", Key: last, Ty: c16TyM, Impl: "model"})
+			} else {
+				nodes = append(nodes, c16Node{K: "comp", Key: last, Ty: c16TyR, Impl: "retriever"})
+			}
+		}
+		return nodes
+	}
+	where := r.Intn(100) // where the interface-typed lambda sits: top, nested, both
+	g := level(c16Keys, where < 40 || where >= 75)
+	if where >= 25 {
+		sub := c16Node{K: "graph", Key: "sub", Dag: r.Chance(25), Ch: level(c16Keys, where >= 40)}
+		if r.Chance(30) {
+			sub.Ch = append(sub.Ch, c16Node{K: "graph", Key: "in", Ch: level(c16Keys, true)})
+		}
+		pos := r.Intn(len(g) + 1)
+		if pos < len(g) && g[pos].Impl != "lambda" { // keep component nodes right after a lambda
+			pos = len(g)
+		}
+		g = append(g[:pos], append([]c16Node{sub}, g[pos:]...)...)
+		// a model / retriever component must follow a lambda that feeds it
+		for i := 1; i < len(g); i++ {
+			if g[i].K == "comp" && g[i].Impl != "lambda" && (g[i-1].K != "comp" || g[i-1].Impl != "lambda") {
+				g[i] = lam(g[i].Key, g[i].Ty)
+			}
+		}
+	}
+	s := &c16GenState{r: r}
+	c16Targets(g, nil, &s.targets)
+	c := &c16Case{Store: []c16Opt{}, Mode: "seq", Kind: "iface"}
+	isIface := func(t *c16Target) bool { return t.kind == "comp" && c16IsIfaceTy(t.ty) }
+	nopts := r.Range(1, 4)
+	for i := 0; i < nopts; i++ {
+		o := c16Opt{Vals: s.vals(), Handlers: []int{}, Paths: [][]string{}, ViaKey: r.Chance(40), Ty: concrete()}
+		switch w := r.Intn(100); {
+		case w < 50: // undesignated
+		case w < 68: // designated to an interface-typed lambda: wrong type
+			if t := s.pickTarget(isIface); t != nil {
+				if t.ty == c16TyI && r.Chance(60) {
+					o.Ty = c16TyE
+				}
+				o.Paths = append(o.Paths, c16Cp(t.path))
+			}
+		case w < 82: // designated to a graph node that holds one
+			if t := s.pickTarget(func(t *c16Target) bool { return t.kind == "graph" }); t != nil {
+				o.Paths = append(o.Paths, c16Cp(t.path))
+			}
+		default: // designated to a node of the option's own type
+			if t := s.pickTarget(func(t *c16Target) bool { return t.kind == "comp" && t.ty != c16TyNone && !c16IsIfaceTy(t.ty) }); t != nil {
+				o.Ty = t.ty
+				o.Paths = append(o.Paths, c16Cp(t.path))
+			}
+		}
+		c.Store = append(c.Store, o)
+	}
+	if r.Chance(20) {
+		cb := c16Opt{Vals: []int{}, Handlers: s.handlers(), Paths: [][]string{}}
+		if t := s.pickTarget(isIface); t != nil && r.Chance(60) {
+			cb.Paths = append(cb.Paths, c16Cp(t.path)) // callbacks designated to the lambda are fine
+		}
+		c.Store = append(c.Store, cb)
+	}
+	ixs := make([]int, len(c.Store))
+	for i := range ixs {
+		ixs[i] = i
+	}
+	paradigm := "invoke"
+	if r.Chance(30) {
+		paradigm = "stream"
+	}
+	c.Calls = []c16Call{{G: g, Ixs: ixs, Paradigm: paradigm, Dag: r.Chance(25)}}
+	if r.Chance(15) { // the same Options again, and a subset of them
+		c.Kind = "iface/sequence"
+		c.Calls = append(c.Calls, c16Call{G: g, Ixs: c16Subset(r, len(c.Store)), Paradigm: "invoke", Dag: c.Calls[0].Dag})
+	}
+	return c
+}
+
 // ---------------------------------------------------------------------------------------
 // corpus: hand-written cases run first on every seed
 // ---------------------------------------------------------------------------------------
@@ -482,6 +620,24 @@ func c16Corpus() []*c16Case {
 			des(3, true, []string{"d"}), des(3, false, []string{"e"})},
 		Calls: []c16Call{{G: flat, Ixs: []int{4}, Paradigm: "invoke"}, {G: flat, Ixs: []int{5}, Paradigm: "invoke"}}}
 	c16SyncStore(derived)
+	// lambdas whose declared option type is an interface type, at the top and in a nested graph
+	itree := []c16Node{
+		lam("la", c16TyAny), {K: "comp", Key: "m", Ty: c16TyM, Impl: "model"}, lam("ts", c16TyNone),
+		{K: "graph", Key: "sub", Ch: []c16Node{lam("ia", c16TyAny), lam("ii", c16TyI), lam("it", c16TyE)}},
+	}
+	ione := func(kind string, opts ...c16Opt) *c16Case {
+		c := one(kind, opts...)
+		c.Calls[0].G = itree
+		return c
+	}
+	cs = append(cs,
+		ione("iface-undesignated", c16Opt{Ty: c16TyM, Vals: []int{1, 2}}, c16Opt{Ty: c16TyE, Vals: []int{3}}, c16Opt{Ty: c16TyA, Vals: []int{4}}),
+		ione("iface-model-option-to-any-lambda", c16Opt{Ty: c16TyM, Vals: []int{1}, Paths: [][]string{{"la"}}}),
+		ione("iface-model-option-to-nested-any-lambda", c16Opt{Ty: c16TyM, Vals: []int{1}, Paths: [][]string{{"sub", "ia"}}}),
+		ione("iface-implementing-option-to-iface-lambda", c16Opt{Ty: c16TyE, Vals: []int{1}, Paths: [][]string{{"sub", "ii"}}}),
+		ione("iface-option-to-graph-around", c16Opt{Ty: c16TyE, Vals: []int{1}, Paths: [][]string{{"sub"}}}),
+		ione("iface-callbacks-to-any-lambda", c16Opt{Handlers: []int{1}, Paths: [][]string{{"la"}, {"sub", "ii"}}}),
+	)
 	return append(cs, mk("conc"), mk("seq"), derived)
 }
 
